@@ -173,12 +173,17 @@ MUTANTS = [
      "                for k, v in current_instance._values.items():\n                    complete_values.setdefault(k, v)\n                current_instance = current_instance._father\n            return UPState(",
      "                for k, v in current_instance._values.items():\n                    complete_values[k] = v\n                current_instance = current_instance._father\n            return UPState(", "make_child"),
     ("C36", "unified_planning/model/state.py",
-     "                {k: v for k, v in complete_values.items() if self._is_nondefault(k, v)},\n                self._fluent_set,\n            )\n        # Otherwise",
-     "                {k: v for k, v in complete_values.items()},\n                self._fluent_set,\n            )\n        # Otherwise", "make_child"),
-    ("C36", "unified_planning/model/state.py",
      "        return UPState(updated_values, self._fluent_set, self)", "        return UPState(updated_values, self._fluent_set, self._father)", "any positive"),
     ("C36", "unified_planning/model/state.py",
      "            if _father is not None or self._is_nondefault(fluent, value):", "            if self._is_nondefault(fluent, value):", "any positive"),
+    ("C35", "unified_planning/model/contingent/execution_environment.py",
+     "            default_value = problem.fluents_defaults.get(fluent, None)", "            default_value = problem.initial_defaults.get(fluent.type, None)", "_get_stateless"),
+    ("C35", "unified_planning/model/contingent/execution_environment.py",
+     "            if f not in problem.hidden_fluents:\n                deterministic_problem.set_initial_value(f, v)", "            deterministic_problem.set_initial_value(f, v)", "_get_stateless"),
+    ("C35", "unified_planning/model/contingent/execution_environment.py",
+     "                for effect in action.effects:\n                    dummy._add_effect_instance(effect.clone())", "                for effect in action.effects[:1]:\n                    dummy._add_effect_instance(effect.clone())", "_get_stateless"),
+    ("C35", "unified_planning/model/contingent/execution_environment.py",
+     "            if default_value is None and fluent.type.is_bool_type():\n                default_value = False", "            if default_value is None:\n                default_value = False", "_get_stateless"),
     ("C11", "unified_planning/model/walkers/simplifier.py",
      "            return self.manager.Bool(not l)", "            return self.manager.Bool(l)", "walk_not"),
 ]
